@@ -251,7 +251,7 @@ class C13(Sim):
             if n == "loop":
                 ev["n"] = self.cfg["levels"] if nf <= 40 else 1
             if n == "6":
-                ev["n"] = 1
+                ev["n"] = self.cfg["levels"] if nf <= 20 else 1
             return ev
         names = [n for n in ["cell_fan", "face_center"] if n not in off] or ["cell_fan"]
         n = r.choice(names)
@@ -394,8 +394,11 @@ class C13(Sim):
             pts = ([mid(P, a, b) for a, b in edges_of(F)] + [bary(P, f) for f in F]) if tri else None
             return V + E + nf0 - len(P), 3 * nf0, pts
         if name == "6":
-            pts = ([mid(P, a, b) for a, b in edges_of(F)] + [bary(P, f) for f in F]) if tri else None
-            return V + E + nf0 - len(P), 6 * nf0, pts
+            pts = ([mid(P, a, b) for a, b in edges_of(F)] + [bary(P, f) for f in F]) if (tri and ev.get("n", 1) == 1) else None
+            v, e, f = V, E, nf0
+            for _ in range(ev.get("n", 1)):  # one round: 3 quads per triangle, each quad cut in two
+                v, e, f = v + e + f, 2 * e + 6 * f, 6 * f
+            return v - len(P), f, pts
         raise ValueError(name)
 
     # ------------------------------------------------------------------ step
